@@ -107,7 +107,10 @@ import time as _time_mod
 _REAL = {k: getattr(_time_mod, k) for k in ('gmtime', 'strftime', 'asctime', 'time')}
 
 
-def patch_process_clock(clock, host='simhost', pid=None, cpus=None):
+PROC = {}       # simulated /proc files of this process
+
+
+def patch_process_clock(clock, host='simhost', pid=None, cpus=None, mem_pages=None):
     """Inside a simulated child process every clock a program could read is
     the simulated one: the `time` module functions and datetime.now()/today()
     are replaced process-wide (the harness itself does not read clocks in
@@ -143,6 +146,33 @@ def patch_process_clock(clock, host='simhost', pid=None, cpus=None):
     dtm.date = SimDate
     socket.gethostname = lambda: host
     platform.node = lambda: host
+    if mem_pages:
+        # how much memory the machine has free right now is a property of
+        # the moment; programs ask through os.sysconf, resource or /proc
+        real_sysconf = os.sysconf
+
+        def sim_sysconf(name):
+            if name in ('SC_AVPHYS_PAGES', os.sysconf_names.get('SC_AVPHYS_PAGES')):
+                return mem_pages
+            if name in ('SC_PHYS_PAGES', os.sysconf_names.get('SC_PHYS_PAGES')):
+                return mem_pages * 2
+            return real_sysconf(name)
+        os.sysconf = sim_sysconf
+        try:
+            import resource
+            real_getrlimit = resource.getrlimit
+
+            def sim_getrlimit(which):
+                if which == resource.RLIMIT_AS:
+                    return (mem_pages * 4096 * 3, resource.RLIM_INFINITY)
+                return real_getrlimit(which)
+            resource.getrlimit = sim_getrlimit
+        except ImportError:
+            pass
+        PROC['/proc/meminfo'] = ('MemTotal: %d kB\nMemFree: %d kB\nMemAvailable: %d kB\n'
+                                 % (mem_pages * 8, mem_pages * 4, mem_pages * 4))
+        PROC['/proc/self/statm'] = '%d %d 2000 700 0 %d 0\n' % (mem_pages // 3, mem_pages // 8, mem_pages // 9)
+        fired('memory_situation_seeded')
     if cpus:
         # how many CPUs the process may use is a property of the machine /
         # container / taskset the user happens to be in
@@ -241,6 +271,9 @@ def _sim_id(obj):
 
 # ---------------------------------------------------------------------- disk
 
+_REAL_OPEN = open
+
+
 class DiskFault(OSError):
     pass
 
@@ -287,7 +320,12 @@ class SimDisk:
         if 'b' in mode:
             raise ValueError('simulated disk is text only')
         if mode.startswith('r'):
+            if path in PROC:
+                return io.StringIO(PROC[path])
             if path not in self.files:
+                if path.startswith(('/proc/', '/sys/', '/etc/', '/usr/', '/dev/')):
+                    # the machine around the program, not the program's files
+                    return _REAL_OPEN(path, mode, *a, **kw)
                 raise FileNotFoundError(2, 'No such file or directory', path)
             return io.StringIO(self.files[path])
         initial = ''
